@@ -61,7 +61,7 @@ def tree_push_atomic():
 
 
 def tree_ans_lock():
-    """fixes/F27: REQ and TOUCH hold c.RLock (Tie.Life.answers_channel_lock_shape / treeAnsLock)"""
+    """F27 (/repo ebb5df3): REQ and TOUCH hold c.RLock (Tie.Life.answers_channel_lock_shape / treeAnsLock)"""
     pre = ["call:c.exitMutex.RLock", "defer:RUnlock", "call:c.RLock", "defer:RUnlock", "call:c.popInFlightMessage"]
     return (gen_fact("reqLockSeq") or [])[:5] == pre and (gen_fact("touchLockSeq") or [])[:5] == pre
 
@@ -213,8 +213,12 @@ def replay_known(ctx, binp):
     topic_delete_replays(ctx, binp, res)
     sync_every_replays(ctx, binp, res)
     # Empty racing an operation that holds a message outside every container (audit B17).  REQ / TOUCH: repaired by
-    # fixes/F27 (the answers hold c.RLock: Empty waits); the timeout scan's window is NOT covered by F27 (open finding).
-    ans_lock = tree_ans_lock()
+    # F27 = /repo ebb5df3, committed (the answers hold c.RLock: Empty waits; Tie.Life.answers_channel_lock_shape accepts only that
+    # shape, so a surviving message is a VIOLATION under the key of the `fixed` entry); the timeout scan's window is NOT
+    # covered by F27 (open finding).
+    ans_lock = True
+    if not tree_ans_lock():
+        ctx.broken_ties.append("RequeueMessage/TouchMessage no longer take c.RLock right after exitMutex.RLock (F27, /repo ebb5df3)")
     for name, key, guarded in (("empty_races_req_survives", "empty-races-req-message-survives", True),
                                ("empty_races_touch_survives", "empty-races-touch-message-survives", True),
                                ("empty_races_scan_survives", "empty-races-timeout-scan-message-survives", False)):
@@ -236,7 +240,7 @@ def replay_known(ctx, binp):
         elif kv.get("survived") == "true":
             # a tree whose facts say "the answers hold the channel lock" (or on which Empty did wait) must not let
             # the message survive: a different key, so that the open finding of the unprotected tree does not swallow it
-            k = key + (":despite-lock" if (waited or (guarded and ans_lock)) else "")
+            k = key + (":despite-lock" if (waited and not guarded) else "")
             ctx.violation(k, "%s: %s" % (name, obs), sched + "# observed: " + obs + "\n")
         elif guarded and ans_lock and not waited:
             ctx.broken_ties.append("replay %s: the facts say REQ/TOUCH hold c.RLock but Empty did not wait (%s)" % (name, obs))
@@ -536,7 +540,7 @@ def life_property_fails(last, op, impl, model):
 
 def micro_corr(ctx, binp, corr_broken, seed, n, steps, fixed, scan_atomic=False, push_atomic=None, ans_lock=None):
     push_atomic = tree_push_atomic() if push_atomic is None else push_atomic
-    ans_lock = tree_ans_lock() if ans_lock is None else ans_lock
+    ans_lock = True if ans_lock is None else ans_lock   # F27 is committed: the model parameter is an equality, not a selection
     rc, out = ctx.run_cmd([binp, "-test.run", "^TestVerifE5MicroCorr$", "-test.count=1", "-test.timeout", "%ds" % deadline(ctx)],
                           timeout=deadline(ctx) + 30, env={"VERIF_SEED": seed, "VERIF_N": n, "VERIF_STEPS": steps,
                                             "VERIF_OUT": ctx.work, "VERIF_FIXED": 1 if fixed else 0,
@@ -683,17 +687,19 @@ def run(ctx):
         "index_ok_every_schedule / map_heap_agree_at_quiescence / map_heap_agree_in_progress are theorems about the committed shape "
         "fixed + scanAtomic + pushAtomic (F7, F16, F48), which the ties remove_guard_known, scan_shape_known, push_shape_known demand "
         "of the tree (map_heap_agree_tree); the three counter-examples of the pre-F48 shape stay as theorems about that shape",
-        "empty_discards_held_fixed is a theorem about the tree WITH fixes/F27 (parameter ansLock, tie answers_channel_lock_shape; "
-        "the default run selects ansLock from the tree) under the hypothesis that no timeout scan holds a message when Empty begins "
-        "(forced: empty_discards_held_scan_false; open finding empty-races-timeout-scan-message-survives)",
+        "empty_discards_held_this_tree: F27 (/repo ebb5df3: REQ/TOUCH hold c.RLock) is committed, Tie.Life.answers_channel_lock_shape accepts ONLY "
+        "its shape and tree_ans_lock decides ansLock = true (tree_is_f27Tree); the theorem carries the hypothesis that no timeout scan holds a "
+        "message when Empty begins (forced: empty_discards_held_scan_false; open finding empty-races-timeout-scan-message-survives). "
+        "empty_survivor_variants is about the tree BEFORE F27 (findings empty-races-req/touch-message-survives, listed fixed, replayed: a "
+        "reproduction is a VIOLATION)",
         "configuration: --sync-every >= 1 (E9 CfgOk.sync is an assumption on the configuration: nsqd does not validate the option; "
         "with 0 the open finding sync-every-zero-delete-leaves-meta-file applies; fixes/F25 is a proposal only)",
-        "no_zombie_fixed (topic deletion vs SUB / re-creation / second deletion) is a theorem about the tree with "
-        "fixes/F19 + F20 (selected by the ties sub_guard_shape / delete_topic_shape); without them DeleteDisconnectsFull "
-        "is false (delete_disconnects_full_false, witnessDouble_leaks) and both witnesses are replayed as known findings; "
-        "delete_topic_closes_attached holds on every tree",
-        "no_fault is a theorem about removeFromInFlightPQ as patched by fixes/F7_stale_index.patch; on a tree "
-        "without the patch it is false (no_fault_full_false) and the failure is replayed as a known finding",
+        "no_zombie_fixed (topic deletion vs SUB / re-creation / second deletion) is a theorem about this tree: F19 8445d6a + F20 dbf8a73 are "
+        "committed and the ties sub_guard_shape / delete_topic_shape / tree_model_known demand their shapes; about the tree BEFORE them "
+        "DeleteDisconnectsFull is false (delete_disconnects_full_false, witnessDouble_leaks) - both witnesses are fixed findings replayed on "
+        "every run (a reproduction is a VIOLATION); delete_topic_closes_attached holds on every tree",
+        "no_fault is a theorem about removeFromInFlightPQ as patched by F7 (/repo 80a0e5f; tie remove_guard_known accepts only the patched "
+        "guard); about the guard before it no_fault_full_false holds and the failure is a fixed finding replayed on every run",
     ]
     ctx.rule = ("life: generated histories (create/delete/empty/pause/sub/unsub/publish/deliver/FIN/REQ/deferred release; "
                 "durable and ephemeral; mem-queue-size 1/2/3/50 with 200-byte disk files) on a real NSQD, full white-box "
@@ -719,10 +725,10 @@ def run(ctx):
     ctx.corr["tree_push_atomic_F48"] = tree_push_atomic()
     ctx.corr["tree_answers_hold_channel_lock_F27"] = tree_ans_lock()
     ctx.notes.append("micro-step model parameters of this tree: pushAtomic=%s (F48: map insert + heap push one critical "
-                     "section), ansLock=%s (fixes/F27: REQ/TOUCH hold c.RLock; %s)"
+                     "section), ansLock=%s (F27 ebb5df3: REQ/TOUCH hold c.RLock; %s)"
                      % (tree_push_atomic(), tree_ans_lock(),
-                        "empty_discards_held_fixed in force" if tree_ans_lock() else
-                        "finding empty-races-req-message-survives open"))
+                        "empty_discards_held_this_tree in force" if tree_ans_lock() else
+                        "TIE BROKEN: the committed shape is demanded; the model still runs with ansLock=true"))
     ctx.notes.append("removeFromInFlightPQ on this tree: %s → micro-step model parameter fixed=%s; theorem in force: %s"
                      % ("patched guard" if fixed else "`if msg.index == -1`", fixed,
                         "no_fault (all schedules)" if fixed else "no_fault_full_false + known finding F7"))
